@@ -12,7 +12,7 @@
 (* the specification's step" and "the logged state satisfies the            *)
 (* property's predicate".  Empty set = the event conforms.                 *)
 (***************************************************************************)
-EXTENDS Env
+EXTENDS Env, Rebuild
 
 Tag(c, x) == <<c, ToString(x)>>
 C(c) == <<c, "">>
@@ -402,6 +402,71 @@ MultiResetClauses(T, prev, ev, post) ==
   \cup EnvObsClauses(T, ev.eobs, post)
 MultiResetFailedClauses(T, prev, ev, post) == {Tag("C18:multi-reset-raised", <<ev.out, ev.flexible_generator>>)}
 
+(* --- C14: views, round trips, rebuilding from job sequences -------------------- *)
+NanPad(q, n) == [k \in 1..n |-> IF k <= Len(q) THEN q[k] ELSE NANV]
+MaxMsLen(I) == MaxOr0({Len(Op(I, o).ms) : o \in AllOps(I)})
+ViewsWrong(I, v) ==
+    {n \in DOMAIN v :
+       CASE n = "num_jobs" -> v[n] # Len(I)
+         [] n = "num_machines" -> v[n] # NM(I)
+         [] n = "num_operations" -> v[n] # NumOps(I)
+         [] n = "is_flexible" -> v[n] # IsFlexible(I)
+         [] n = "op_ids" -> v[n] # [j \in Jobs(I) |-> [p \in 1..Len(I[j]) |-> <<j, p, OpId(I, <<j, p>>)>>]]
+         [] n = "durations_matrix" -> v[n] # [j \in Jobs(I) |-> [p \in 1..Len(I[j]) |-> I[j][p].d]]
+         [] n = "machines_matrix" -> v[n] # [j \in Jobs(I) |-> [p \in 1..Len(I[j]) |-> I[j][p].ms]]
+         [] n = "machines_matrix_is_nested" -> v[n] # IsFlexible(I)
+         [] n = "durations_matrix_array" ->
+                v[n] # [j \in Jobs(I) |-> NanPad([p \in 1..Len(I[j]) |-> I[j][p].d], MaxJobLen(I))]
+         [] n = "machines_matrix_array" ->
+                v[n] # [j \in Jobs(I) |-> [p \in 1..MaxJobLen(I) |->
+                           IF p <= Len(I[j]) THEN NanPad(I[j][p].ms, MaxMsLen(I)) ELSE NanPad(<<>>, MaxMsLen(I))]]
+         [] n = "operations_by_machine" -> v[n] # [m \in Machines(I) |-> OpsByMachine(I, m)]
+         [] n = "max_duration" -> v[n] # MaxDuration(I)
+         [] n = "max_duration_per_job" -> v[n] # [j \in Jobs(I) |-> MaxDurationPerJob(I, j)]
+         [] n = "max_duration_per_machine" -> v[n] # [m \in Machines(I) |-> MaxDurationPerMachine(I, m)]
+         [] n = "job_durations" -> v[n] # [j \in Jobs(I) |-> JobDuration(I, j)]
+         [] n = "machine_loads" -> v[n] # [m \in Machines(I) |-> MachineLoad(I, m)]
+         [] n = "total_duration" -> v[n] # TotalDuration(I)
+         [] OTHER -> FALSE}
+ViewsClauses(T, prev, ev, post) ==
+       {Tag("C14:view", n) : n \in ViewsWrong(T.inst, ev.views)}
+  \cup {Tag("C14:view-raised", ev.raised[i]) : i \in DOMAIN ev.raised}
+  \cup If(~post.instok, {C("C14:instance-modified")})
+RoundTripClauses(T, prev, ev, post) ==
+    IF ev.out # "ok" THEN {Tag("C14:roundtrip-raised", <<ev.via, ev.out>>)}
+    ELSE   If(ev.inst # T.inst, {Tag("C14:roundtrip-operations", ev.via)})
+      \cup If(ev.name # ev.orig_name, {Tag("C14:roundtrip-name", ev.via)})
+      \cup If(ev.metadata # ev.orig_metadata, {Tag("C14:roundtrip-metadata", ev.via)})
+      \cup If(~post.instok, {C("C14:instance-modified")})
+FromSeqsClauses(T, prev, ev, post) ==
+    LET I == T.inst  P == ev.P IN
+    IF ~IsPermTuple(I, P)
+    THEN \* malformed sequences: outside the statement's quantifier; only "an exception or a feasible complete schedule, no hang"
+         If(ev.out = "hang" \/ (ev.out = "ok" /\ ~(Feasible(I, ev.sched) /\ Complete(I, ev.sched))), {C("C14:fromseqs-malformed-input")})
+    ELSE LET exp == Rebuild(I, P) IN
+           If(ev.out = "hang", {C("C14:fromseqs-hang")})
+      \cup If((ev.out = "ok") # AdmitsSchedule(I, P), {C("C14:fromseqs-accepts-iff-schedulable")})
+      \cup If(ev.out \notin {"ok", "exc:ValidationError", "hang"}, {Tag("C14:fromseqs-raised", ev.out)})
+      \cup (IF ev.out = "ok"
+            THEN   If(~Feasible(I, ev.sched) \/ ~Complete(I, ev.sched), {C("C14:fromseqs-infeasible")})
+              \cup If(JobSequences(ev.sched) # P, {C("C14:fromseqs-order")})
+              \cup If(exp.out = "ok" /\ ev.sched # exp.s.sched, {C("C14:fromseqs-schedule")})
+            ELSE {})
+SchedRoundTripClauses(T, prev, ev, post) ==
+       If(ev.out # "ok", {Tag("C14:schedule-roundtrip-raised", <<ev.via, ev.out>>)})
+  \cup If(ev.out = "ok" /\ ev.sched # prev.core.sched, {Tag("C14:schedule-roundtrip", ev.via)})
+  \cup If(ev.out = "ok" /\ ev.via = "dict" /\ ev.metadata # ev.orig_metadata, {C("C14:schedule-roundtrip-metadata")})
+(* --- C15: equality is equality of content ---------------------------------------- *)
+EqClauses(T, prev, ev, post) ==
+    LET same == ev.ca = ev.cb IN
+       If(ev.eq_ab # same, {Tag("C15:equality", <<ev.kind, IF same THEN "same-content-unequal" ELSE "different-content-equal">>)})
+  \cup If(ev.eq_ab # ev.eq_ba, {Tag("C15:not-symmetric", ev.kind)})
+  \cup If(ev.ne_ab = ev.eq_ab, {Tag("C15:ne-inconsistent", ev.kind)})
+  \cup If(~ev.eq_aa \/ ~ev.eq_bb, {Tag("C15:not-reflexive", ev.kind)})
+  \cup If(ev.eq_ab /\ ~ev.hash_eq, {Tag("C15:equal-but-different-hash", ev.kind)})
+EqTripleClauses(T, prev, ev, post) ==
+       If(ev.eq_ab /\ ev.eq_bc /\ ~ev.eq_ac, {Tag("C15:not-transitive", ev.kind)})
+
 KindsOf(kinds, subs) == [i \in DOMAIN subs |-> IF subs[i] = 0 THEN "other" ELSE kinds[subs[i]]]
 
 CreateClauses(T, prev, ev, post) ==
@@ -445,6 +510,12 @@ DClauses(T, l, prev, post) ==
            [] ev.a = "EnvFreshRun" -> EnvFreshRunClauses(T, prev, ev, post)
            [] ev.a = "MultiReset"  -> MultiResetClauses(T, prev, ev, post)
            [] ev.a = "MultiResetFailed" -> MultiResetFailedClauses(T, prev, ev, post)
+           [] ev.a = "Views"       -> ViewsClauses(T, prev, ev, post)
+           [] ev.a = "RoundTrip"   -> RoundTripClauses(T, prev, ev, post)
+           [] ev.a = "FromSeqs"    -> FromSeqsClauses(T, prev, ev, post)
+           [] ev.a = "SchedRoundTrip" -> SchedRoundTripClauses(T, prev, ev, post)
+           [] ev.a = "Eq"          -> EqClauses(T, prev, ev, post)
+           [] ev.a = "EqTriple"    -> EqTripleClauses(T, prev, ev, post)
            [] ev.a = "Graph"       -> GraphClauses(T, prev, ev, post)
            [] ev.a = "Solved"      -> SolvedClauses(T, prev, ev, post)
            [] ev.a = "CreateObs"   -> CreateObsClauses(T, prev, ev, post)
